@@ -46,6 +46,7 @@ class World(object):
     def __init__(self, world='LIVE'):
         self.world = world
         self.journal = []       # ('body', 'in'|'out', decl index, world, sid, args-copy)
+        self.call_copies = []   # ('v', sid, deep copy at call time) | ('e', sid, type name)
         self.outcalls = []      # (output decl index, args, kwargs) journalled at the call site, copies
         self.sites = {}         # sid -> ('v', value) | ('e', exception)
         self.body_out = {}      # sid -> ('v', obj) | ('e', exc)  what the body itself produced (identity)
@@ -256,7 +257,8 @@ def build_class(prog, rec, W, decorated=True):
                 W.outcalls.append((s['i'], copy.deepcopy(oargs), copy.deepcopy(okw)))
                 v = getattr(inst, 'out%d' % s['i'])(*oargs, **okw)
             W.sites[s['sid']] = ('v', v)
-            return ('v', s['sid'], copy.deepcopy(v))
+            W.call_copies.append(('v', s['sid'], copy.deepcopy(v)))
+            return W.call_copies[-1]
         except Exception as e:  # pylint: disable=broad-except
             W.sites[s['sid']] = ('e', e)
             if s.get('reraise'):
@@ -265,7 +267,8 @@ def build_class(prog, rec, W, decorated=True):
                 from playback.exceptions import TapeRecorderException
                 if isinstance(e, TapeRecorderException):
                     raise
-            return ('e', s['sid'], type(e).__name__)
+            W.call_copies.append(('e', s['sid'], type(e).__name__))
+            return W.call_copies[-1]
         except BaseException as e:
             W.sites[s['sid']] = ('e', e)
             raise
@@ -287,7 +290,6 @@ def build_class(prog, rec, W, decorated=True):
             elif t == 'sleep':
                 time.sleep(s['ms'] / 1000.0)
             elif t == 'mutate_last':
-                last = W.tl_last if hasattr(W, 'tl_last') else None
                 prev = [x for x in seen if x[0] == 'v']
                 if prev:
                     site = W.sites.get(prev[-1][1])
